@@ -276,4 +276,19 @@ theorem decSegment_leafPos_unsorted {α : Type} (p : Parser α) (id : SegId) (hi
     readItems_write decHash writeFixed hs (fun x hx r => decHash_write x (hh.1 x hx) r), andThen_ok,
     readItemCount_write _ hc, andThen_ok, readPositions, readPositionsLoop_unsorted ws 0 hb h, andThen_error]
 
+/-! ## the empty and the singleton list satisfy the well-formedness predicates
+
+(`HashesWF`, `PosOK`, hence `Segment.WF`, have no hypothesis that excludes an EMPTY list: a segment
+with no pruned-subtree hashes, with no leaves, or with an EMPTY Merkle proof — what
+`SegmentProof::generate` produces when the whole MMR fits into the one segment — is well-formed) -/
+
+theorem hashesWF_nil : HashesWF [] := ⟨fun _ h => (List.not_mem_nil h).elim, Nat.zero_le _⟩
+
+theorem hashesWF_singleton (h : Bytes) (hl : h.length = HASH_SIZE) : HashesWF [h] :=
+  ⟨fun x hx => by simp only [List.mem_singleton] at hx; subst hx; exact hl,
+   by simp only [List.length_singleton]; decide⟩
+
+theorem posOK_nil : PosOK 0 [] :=
+  (posOK_zero_iff []).mpr ⟨List.Pairwise.nil, fun _ h => (List.not_mem_nil h).elim⟩
+
 end GV.SerSeg
